@@ -77,6 +77,15 @@ func Load(repo string) (*Gen, error) {
 		g.funcs[g.funcName(fn)] = fn
 	}
 	g.loadKeywords()
+	// instantiate schemas / merge inherited clauses for every function of the module
+	for name, fn := range g.funcs {
+		if fn.Pkg != nil && strings.HasPrefix(fn.Pkg.Pkg.Path(), modPath) {
+			g.cs.forFunc(name)
+		}
+	}
+	for name := range g.cs.Funcs {
+		g.cs.forFunc(name)
+	}
 	return g, nil
 }
 
@@ -120,7 +129,7 @@ func (g *Gen) contractFor(fn *ssa.Function) *Contract {
 	if fn.Origin() != nil {
 		fn = fn.Origin()
 	}
-	return g.cs.Funcs[g.funcName(fn)]
+	return g.cs.forFunc(g.funcName(fn))
 }
 
 func (g *Gen) invokeContract(cc *ssa.CallCommon) *Contract {
@@ -305,7 +314,11 @@ func (g *Gen) Verify(c *Contract) (s *Session) {
 		fr.vals[p] = v
 		fr.assumeTypeFacts(st, v, p.Type())
 		fx.penv[p.Name()] = TV{v, p.Type()}
+		fx.noteObj(v)
 		fr.names[p.Name()] = append(fr.names[p.Name()], p)
+	}
+	if fn.Signature.Recv() != nil && len(fn.Params) > 0 {
+		fx.penv["recv"] = fx.penv[fn.Params[0].Name()]
 	}
 	env := fx.baseEnv(st)
 	for _, l := range c.Lets {
@@ -460,4 +473,32 @@ func (fx *fnExec) topSafety() []string {
 		return []string{"C04", "safety"}
 	}
 	return safetyTags
+}
+
+func (g *Gen) schemaByName(n string) *Schema {
+	for _, sc := range g.cs.Schemas {
+		if sc.Name == n {
+			return sc
+		}
+	}
+	return nil
+}
+
+// satisfiesSchema: the contract of a method passed as a function argument is at least as strong as
+// the schema the callee assumes for its parameter.
+func (g *Gen) satisfiesSchema(c *Contract, schema string) bool {
+	if c == nil {
+		return false
+	}
+	switch {
+	case c.FromSchema == schema:
+		return schema != "recovering" || c.PanicKind == "never"
+	case schema == "recovering":
+		return c.FromSchema == "parser" && c.PanicKind == "never"
+	case schema == "parser":
+		return c.FromSchema == "recovering"
+	case schema == "parseropt":
+		return c.FromSchema == "parser" || c.FromSchema == "recovering" || c.FromSchema == "parsernp"
+	}
+	return false
 }
